@@ -249,7 +249,83 @@ fn with_steps(case: &Case, new_steps: Vec<Step>) -> Case {
 
 /// For enumeration faults the failing crash point moves when steps are removed, so the
 /// minimiser works on the enumerating form and concretises at the end.
+/// C15: drop calls (and emptied tasks) one at a time; a reduced workload is kept when a bounded
+/// depth-first search over ITS schedules still finds the same violation class; the reported case
+/// carries the concrete choice path found for the reduced workload.
+fn minimise_shared(case: &Case, clause: &str, budget: usize) -> (Case, usize) {
+    let Body::Shared(spec0) = &case.body else { return (case.clone(), 0) };
+    let mut best_spec = spec0.clone();
+    let mut best_case = case.clone();
+    let mut execs = 0usize;
+    let try_spec = |spec: &crate::c15::SharedSpec, execs: &mut usize| -> Option<Case> {
+        let mut probe = spec.clone();
+        probe.sched = crate::c15::Sched::Dfs { cap: 400 };
+        let c = Case { prop: case.prop.clone(), family: case.family.clone(), run: case.run, body: Body::Shared(probe) };
+        *execs += 1;
+        let out = run_case(&c);
+        if out.viols.iter().any(|v| v.clause == clause) {
+            out.concrete.map(|b| {
+                let mut cc = *b;
+                cc.prop = case.prop.clone();
+                cc.family = case.family.clone();
+                cc.run = case.run;
+                cc
+            })
+        } else {
+            None
+        }
+    };
+    let mut progress = true;
+    while progress && execs < budget {
+        progress = false;
+        'outer: for t in 0..best_spec.tasks.len() {
+            for i in 0..best_spec.tasks[t].len() {
+                let mut cand = best_spec.clone();
+                cand.tasks[t].remove(i);
+                if cand.tasks.iter().filter(|x| !x.is_empty()).count() < 2 {
+                    continue;
+                }
+                cand.tasks.retain(|x| !x.is_empty());
+                if let Some(c) = try_spec(&cand, &mut execs) {
+                    if let Body::Shared(s2) = &c.body {
+                        best_spec = s2.clone();
+                    }
+                    best_case = c;
+                    progress = true;
+                    break 'outer;
+                }
+                if execs >= budget {
+                    break 'outer;
+                }
+            }
+        }
+        if !progress && !best_spec.prelude.is_empty() && execs < budget {
+            let mut cand = best_spec.clone();
+            cand.prelude.pop();
+            // keep every clear well-formed (start below the length at any linearisation point)
+            let ok = cand.tasks.iter().flatten().all(|op| match op {
+                crate::c15::Op::Clear(s, _) => (*s as usize) < cand.prelude.len(),
+                _ => true,
+            });
+            if !ok {
+                break;
+            }
+            if let Some(c) = try_spec(&cand, &mut execs) {
+                if let Body::Shared(s2) = &c.body {
+                    best_spec = s2.clone();
+                }
+                best_case = c;
+                progress = true;
+            }
+        }
+    }
+    (best_case, execs)
+}
+
 pub fn minimise(case: &Case, clause: &str, budget: usize) -> (Case, usize) {
+    if matches!(case.body, Body::Shared(_)) {
+        return minimise_shared(case, clause, budget.min(120));
+    }
     let mut best = case.clone();
     let mut execs = 0usize;
     let fails = |c: &Case, execs: &mut usize| -> bool {
